@@ -22,7 +22,7 @@ RULE = ("case = one generated program (AST of 20-120 nodes over sequencing, if/e
 ASSUMPTIONS = ["c05_model.py is a faithful reading of README.md + DESIGN.md Appendix A scoping table",
                "error kind is reduced to raised / not raised (plus the thrown value for explicit throw)",
                "programs are bounded by construction (counter-guarded while loops, finite lists, small recursion depth)"]
-PLAN = {"quick": {"programs": 16000, "size": 60, "shards": 16}, "thorough": {"programs": 600000, "size": 120, "shards": 64}}
+PLAN = {"quick": {"programs": 60000, "size": 70, "shards": 16}, "thorough": {"programs": 600000, "size": 120, "shards": 64}}
 REG = dict(level="exploration", min_nontrivial=3000,
            technique="reference-model monitor: generated programs run on the real interpreter and on an independent Python reference interpreter of the documented scoping/control-flow rules; value, output and raised/not-raised compared",
            claim="Every generated program evaluated to the value, printed output and raised/not-raised outcome predicted by the reference interpreter; exploration over generated programs up to the size bound only.",
